@@ -81,9 +81,8 @@ def replay_on_binary(prog, word, wd):
         return {"binary": repr(e)[:200]}
 
 
-def run(pid, theorems, module, progs, rule, known_corpus=()):
-    ck = Check(pid, "translation_validation")
-    ck.lean_obligations(module, theorems)
+def collect(pid, progs):
+    """reference comparison of every program (in a pool) -> results"""
     # every k-th program also goes through the compiled C (binary vs runtime model of its machine)
     k = max(1, len(progs) // (60 if common.tier() == "quick" else 400))
     for i, p in enumerate(progs):
@@ -91,6 +90,11 @@ def run(pid, theorems, module, progs, rule, known_corpus=()):
     with mp.Pool(min(14, os.cpu_count() or 4)) as pool:
         results = pool.map(work, [(p, pid) for p in progs], chunksize=2)
     shutil.rmtree(os.path.join(common.VERIF, "scratch", f"cstage-{pid.lower()}"), ignore_errors=True)
+    return results
+
+
+def judge(ck, pid, progs, results):
+    """report the results through `ck`; -> (stats, distinct)"""
     byname = {p["name"]: p for p in progs}
     st = {"programs": len(progs), "accepted": 0, "closed": 0, "closed_relaxed": 0, "rejected": 0, "unsupported": 0,
           "inconclusive": 0, "mismatch": 0, "unsupported_reasons": {}}
@@ -166,6 +170,14 @@ def run(pid, theorems, module, progs, rule, known_corpus=()):
                 ck.samples.append({"program": r["name"], "result": r["detail"][:100]})
     finally:
         shutil.rmtree(wd, ignore_errors=True)
+    return st, distinct
+
+
+def run(pid, theorems, module, progs, rule, known_corpus=()):
+    ck = Check(pid, "translation_validation")
+    ck.lean_obligations(module, theorems)
+    results = collect(pid, progs)
+    st, distinct = judge(ck, pid, progs, results)
     if st.get("budget_exceeded", 0) * 20 > max(1, st["accepted"]):
         print(f"TOOL-ERROR: {st['budget_exceeded']} of {st['accepted']} programs exceeded the exploration budget")
         sys.exit(2)
